@@ -11,6 +11,7 @@ CONSTANTS
   MaxPeer = 14
   MaxPush = 6
   Faults = {"sendErr", "recvErr", "peerClose"}
+  MaxFaults = 2
   RespShapes <- RS_gen
   Abandon = FALSE
   MaxArr = 3
